@@ -33,7 +33,11 @@ TRACE_PLANS = {
     "C03": [("solve:midconflict,conflict", 260, 4000, "hints", True),
             ("solve:cyclic,locks,excl,unknown,unionempty", 150, 2500, "hints", True),
             ("solve:bigconflict", 60, 12000, "", True),
-            ("solve:selfcons,selfreq", 240, 4000, "", True)],
+            ("solve:selfcons,selfreq", 240, 4000, "", True),
+            # inputs harvested for a rare premise: a learnt clause that is the reason of an
+            # assignment on the final trail AND an ancestor of another such reason (the
+            # unsolvable-analysis meets it twice): 1 - 3 % of conflict-rich random problems
+            ("corpus:c03_shared", 400, 400, "", True)],
     "C04": [("solve:hintexcl,selfcons,softlone", 250, 6000, "", False),
             ("solve:cyclic,excl,locks,unknown,soft,softhints", 120, 4000, "hints", False),
             ("solve:midconflict,base", 120, 4000, "asynchints", False),
